@@ -235,18 +235,20 @@ end Lookback
 
 /-! ### ConditionalEventSequenceEncoderDecoder (control type `γ`, target type `ε`) -/
 section Conditional
-variable {γ ε κ : Type}
+variable {γ ε κ ι : Type}
 
-def condEventsToInput (cIn : List γ → Int → Except String (List Int))
-    (tIn : List ε → Int → Except String (List Int)) (ctrl : List γ) (tgt : List ε) (pos : Int) :
-    Except String (List Int) := do
+/-- `events_to_input` of the wrapper: the control input at `position + 1` (evaluated first) `+` the target input
+at `position` (`ι` = the cell type of the two Python lists) -/
+def condEventsToInput (cIn : List γ → Int → Except String (List ι))
+    (tIn : List ε → Int → Except String (List ι)) (ctrl : List γ) (tgt : List ε) (pos : Int) :
+    Except String (List ι) := do
   let a ← cIn ctrl (pos + 1)
   let b ← tIn tgt pos
   pure (a ++ b)
 
-def condEncode (cIn : List γ → Int → Except String (List Int))
-    (tIn : List ε → Int → Except String (List Int)) (tLab : List ε → Int → Except String κ)
-    (ctrl : List γ) (tgt : List ε) : Except String (List (List Int) × List κ) :=
+def condEncode (cIn : List γ → Int → Except String (List ι))
+    (tIn : List ε → Int → Except String (List ι)) (tLab : List ε → Int → Except String κ)
+    (ctrl : List γ) (tgt : List ε) : Except String (List (List ι) × List κ) :=
   if ctrl.length ≠ tgt.length then .error "ValueError"
   else encodeG (fun t i => condEventsToInput cIn tIn ctrl t i) tLab tgt
 
